@@ -10,6 +10,7 @@ from __future__ import annotations
 import json
 import os
 import re
+import shutil
 import tempfile
 from typing import Any
 
@@ -484,4 +485,62 @@ def debug_trace(t: dict[str, Any], upto: int) -> str:
         return r.out
     finally:
         import shutil
+        shutil.rmtree(scratch, ignore_errors=True)
+
+
+# ---------------------------------------------------------------------------------------------------------------------
+# Behaviours drawn by TLC itself (`-simulate` on Sim_Handling, a paced MC_Handling): the history of the environment AND the
+# handlers' outcomes come from the specification; they are replayed into the real operator and validated like any other run.
+
+def tlc_scenarios(seed: int, num: int, depth: int = 120) -> list[dict[str, Any]]:
+    from vf import tlaval
+    scratch = tempfile.mkdtemp(prefix='vf-hsim-')
+    try:
+        tlc.run('Sim_Handling', 'Sim_Handling.cfg', workers=1, simulate=f'file={scratch}/tr,num={num}', depth=depth, seed=seed, timeout=900)
+        out = []
+        for fn in sorted(f for f in os.listdir(scratch) if f.startswith('tr_')):
+            text = open(os.path.join(scratch, fn)).read()
+            states = []
+            for b in re.split(r'\n(?=\\\* <)', text):
+                m = re.search(r'STATE_\d+ ==\s*\n((?:.|\n)*)', b)
+                if m:
+                    body = m.group(1).split('\n====')[0]
+                    st = tlaval.parse_state(body)
+                    states.append(st)
+            if len(states) < 3:
+                continue
+            conf = states[0]['conf']
+            hs = {}
+            for h, c in conf['hc'].items():
+                if list(c['reasons']):
+                    hs[h] = hdl(sorted(c['reasons']), [], optional=bool(c['optional']), deleted=bool(c['deleted']), retries=int(c['retries']),
+                                errors=str(c['mode']), backoff=int(c['backoff']))
+            real = lambda o: ((int(o['ess']) + 1) // 2, bool(o['match']))
+            env: list[tuple] = []
+            for a, b in zip(states, states[1:]):
+                t = int(a['now']) + 1; oa, ob = a['obj'], b['obj']       # the harness creates the object at instant 1
+                if a['up'] and not b['up'] and not a['stopping']: env.append((t, 1, 'kill'))
+                elif not a['stopping'] and b['stopping']: env.append((t, 1, 'stop'))
+                elif not a['up'] and b['up']: env.append((t, 1, 'start'))
+                elif oa['exists'] and (not ob['exists'] or (ob['deleting'] and not oa['deleting'])) and b['bud']['deletes'] > a['bud']['deletes']:
+                    env.append((t, 1, 'delete'))
+                elif b['bud']['toggles'] > a['bud']['toggles']: env.append((t, 1, 'toggle'))
+                elif b['bud']['edits'] > a['bud']['edits']: env.append((t, 1, 'edit', real(ob)[0]))
+                elif b['bud']['foreign'] > a['bud']['foreign']:
+                    fa, fb = list(oa['fins']), list(ob['fins'])
+                    env.append((t, 1, 'finadd', 'f2') if len(fb) > len(fa) else (t, 1, 'findel', 'f2'))
+                elif b['bud']['relists'] > a['bud']['relists']: env.append((t, 1, 'relist'))
+                # an invocation: the outcome TLC chose becomes the next item of that handler's script
+                la, lb = a['cyc']['last'], b['cyc']['last']
+                if lb.get('h') not in (None, 'none') and (la != lb or a['cyc']['plan'] != b['cyc']['plan']) and len(list(b['cyc']['plan'])) < len(list(a['cyc']['plan'])):
+                    h = str(lb['h']); np = b['cyc']['np'][h]
+                    item = 'ok' if np['st'] == 'succ' else 'perm' if np['st'] == 'fail' else ('temp', max(1, int(np['until']) - int(b['now'])))
+                    if h in hs: hs[h]['script'].append(item)
+            tmax = int(states[-1]['now']) + 1
+            x0, on0 = real(states[0]['obj'])
+            out.append({'id': f'tlc-{seed}-{fn}', 'handlers': hs, 'order': [str(h) for h in conf['order']], 'lifecycle': str(conf['lifecycle']),
+                        'ctimeout': int(conf['ctimeout']), 'init': {'x': x0, 'on': on0}, 'env': env, 'end': tmax + 60, 'tail_from': tmax + 40,
+                        'profile': 'tlc', 'from_tlc': True})
+        return out
+    finally:
         shutil.rmtree(scratch, ignore_errors=True)
